@@ -12,6 +12,8 @@ type SM struct {
 	KEnc  []byte
 	KMac  []byte
 	SSC   []byte // 8 (3DES) or 16 (AES) bytes, unsigned big endian counter, wraps modulo 2^(8*len)
+	// OmitDO99: non-conformant generator that leaves the protected status out (used by adversary models only)
+	OmitDO99 bool
 }
 
 func NewSM(suite string, kenc, kmac []byte) *SM {
@@ -157,7 +159,9 @@ func (s *SM) Wrap(ins byte, data []byte, status uint16) []byte {
 		}
 		dos = append(dos, EncTLV(tag, append([]byte{0x01}, enc...))...)
 	}
-	dos = append(dos, EncTLV(0x99, sw(status))...)
+	if !s.OmitDO99 {
+		dos = append(dos, EncTLV(0x99, sw(status))...)
+	}
 	m := append(bytes.Clone(s.SSC), dos...)
 	dos = append(dos, EncTLV(0x8E, s.mac(m))...)
 	return append(dos, sw(status)...)
